@@ -1407,3 +1407,90 @@ def check_pda_run(ctx, rep, f, rule=RULE + '.M30'):
         rep.undecided(rule, f, 'def ' + f.name, 'outside the evaluator: {}'.format(e))
         return
     rep.holds(rule, f, 'def ' + f.name, 'on {} evaluations (six model PDAs, all words up to length 4 resp. 3, two iteration orders of sets) a run is returned exactly when an accepting computation exists and every returned run is a computation of the PDA'.format(cases))
+
+
+# ---- the finite-language helpers of the checkers on model languages -----------------------------------------------------------------
+
+_LANGS = [set(), {''}, {'a'}, {'', 'a', 'b'}, {'a', 'ab', 'ac'}, {'a', 'ab', 'abc'}, {'ab', 'abc', 'b', 'ba'}, {'', 'ab'}, {'b', 'ab', 'aab'}, {'a', 'b', 'ab', 'ba', 'aba'}, {'aa', 'aab', 'ab'}]
+
+
+def check_language_helpers(ctx, rep, funcs, rule=RULE + '.M31'):
+    """language_no_prefix, language_no_extend, language_reverse, concatenation and words_up_to_n on model languages: the empty
+    language, the language of the empty word alone, the empty word next to words with different first letters, a word whose
+    proper prefix in L is NOT its neighbour in lexicographic order, chains of prefixes, words that are suffixes but not prefixes
+    of others.  Reference: the definitions in the documentation strings, evaluated by the analyser.
+    funcs: name -> FuncInfo."""
+    n_ok = 0
+    refs = {
+        'language_no_prefix': lambda L: {w for w in L if not any(w[:i] in L for i in range(len(w)))},
+        'language_no_extend': lambda L: {w for w in L if not any(v != w and v.startswith(w) for v in L)},
+        'language_reverse': lambda L: {w[::-1] for w in L},
+    }
+    for name, f in funcs.items():
+        cases = 0
+        try:
+            bad = False
+            if name in refs:
+                for L in _LANGS:
+                    for order in ('asc', 'desc'):
+                        arg = set(L)
+                        ok, got = _run(rule, rep, f, lambda: _interp(ctx, order).call(f, [arg]), 'on the language {}'.format(sorted(L)))
+                        if not ok:
+                            bad = True
+                            break
+                        if hasattr(got, '__next__'):
+                            got = set(got)
+                        if not isinstance(got, (set, frozenset)):
+                            raise Unsupported('the result is not a set')
+                        cases += 1
+                        want = refs[name](L)
+                        if set(got) != want:
+                            rep.violates(rule, f, 'def ' + f.name, 'on the language {} the result is {} instead of {}'.format(sorted(L), sorted(got), sorted(want)))
+                            bad = True
+                            break
+                        if arg != L:
+                            rep.violates(rule, f, 'def ' + f.name, 'on the language {} the argument is modified'.format(sorted(L)))
+                            bad = True
+                            break
+                    if bad:
+                        break
+            elif name == 'concatenation':
+                for L1 in _LANGS[:8]:
+                    for L2 in _LANGS[:8]:
+                        ok, got = _run(rule, rep, f, lambda: _interp(ctx, 'asc').call(f, [set(L1), set(L2)]), 'on {} and {}'.format(sorted(L1), sorted(L2)))
+                        if not ok:
+                            bad = True
+                            break
+                        if not isinstance(got, (set, frozenset)):
+                            raise Unsupported('the result is not a set')
+                        cases += 1
+                        want = {u + v for u in L1 for v in L2}
+                        if set(got) != want:
+                            rep.violates(rule, f, 'def ' + f.name, 'on {} and {} the result is {} instead of {}'.format(sorted(L1), sorted(L2), sorted(got), sorted(want)))
+                            bad = True
+                            break
+                    if bad:
+                        break
+            elif name == 'words_up_to_n':
+                for Sigma in (set(), {'a'}, {'a', 'b'}):
+                    for n in range(4):
+                        ok, got = _run(rule, rep, f, lambda: _interp(ctx, 'asc').call(f, [set(Sigma), n]), 'on the alphabet {} and n = {}'.format(sorted(Sigma), n))
+                        if not ok:
+                            bad = True
+                            break
+                        if not isinstance(got, (set, frozenset)):
+                            raise Unsupported('the result is not a set')
+                        cases += 1
+                        want = _all_words(Sigma, n)
+                        if set(got) != want:
+                            rep.violates(rule, f, 'def ' + f.name, 'on the alphabet {} and n = {} the result is {} instead of {}'.format(sorted(Sigma), n, sorted(got), sorted(want)))
+                            bad = True
+                            break
+                    if bad:
+                        break
+            if not bad:
+                rep.holds(rule, f, 'def ' + f.name, 'on {} runs over the model languages (the empty language, the empty word alone and among others, a prefix that is not the lexicographic neighbour, chains) the result is the set the documentation string defines'.format(cases))
+                n_ok += 1
+        except (Unsupported, RecursionError) as e:
+            rep.undecided(rule, f, 'def ' + f.name, 'outside the evaluator: {}'.format(e))
+    return n_ok
